@@ -96,7 +96,9 @@ Inductive cphase :=
 | PhSetGet        (* setCompactRecord: Get *)
 | PhSetCommit     (* setCompactRecord: Commit of the CAS / put-if-absent *)
 | PhRaceGet       (* checkCompactRace(compact=true): Get *)
-| PhRacePut.      (* checkCompactRace(compact=true): Commit of the Put *)
+| PhRacePut       (* checkCompactRace(compact=true): Commit of the Put *)
+| PhReadCheck     (* a range read: checkCompactRace(compact=false), the Get of the record *)
+| PhReadScan.     (* a range read: after the check, before its iterators are opened *)
 
 Inductive cop :=
 | CWrite (n : N)                         (* n acknowledged write requests (each allocates one revision) *)
@@ -111,7 +113,12 @@ Inductive cop :=
 | CStreamPart (rev : N)                  (* Backend.ListByStream once per advertised partition *)
 (* overlapping compactions: each Compact call runs on its own thread and is advanced one engine call at a time *)
 | CSpawn (i : N) (r : N) (nranges : nat) (* thread i enters Backend.Compact(r): clamp, then parks before its first engine call *)
-| CThread (i : N) (ph : cphase).         (* thread i performs the engine call it is parked at (observed: which one) *)
+| CThread (i : N) (ph : cphase)          (* thread i performs the engine call it is parked at (observed: which one) *)
+(* a range read overlapping compactions: two steps - the check of the compaction record, then the scan (the iterators
+   are opened after the check; only on TiKV are they bound to a timestamp taken before it) *)
+| CRSpawn (i : N) (rev : N)              (* thread i enters a range read at explicit revision rev, parks before the check *)
+| CReadCheck (i : N) (rev : N)           (* ... reads the record: refused, or parks before opening its iterators *)
+| CReadScan (i : N) (rev : N).           (* ... scans and answers *)
 
 Inductive cobs :=
 | OWrite
@@ -133,7 +140,7 @@ Definition cstep (s : cstate) (op : cop) : cstate * cobs :=
   | CScanCount rev => (s, ORead (race_read (c_rec s) rev))
   | CStream rev => (s, ORead (race_read (c_rec s) (eff_rev (c_cur s) rev)))
   | CStreamPart rev => (s, ORead (race_read (c_rec s) (eff_rev (c_cur s) rev)))
-  | CSpawn _ _ _ | CThread _ _ => (s, OWrite)      (* thread labels: see xstep below *)
+  | CSpawn _ _ _ | CThread _ _ | CRSpawn _ _ | CReadCheck _ _ | CReadScan _ _ => (s, OWrite)      (* thread labels: see xstep below *)
   end.
 
 Fixpoint crun (s : cstate) (ops : list cop) : cstate :=
@@ -146,14 +153,18 @@ Inductive tstate :=
 | TSetGet (rv : N) (n : nat)                          (* ... setCompactRecord's Get *)
 | TSetCommit (val : option bytes) (rv : N) (n : nat)  (* ... the commit of its batch, built against the value read *)
 | TRaceGet (rv : N) (k : nat) (a : nat)               (* ... checkCompactRace's Get, k ranges to go (k >= 1), attempt a *)
-| TRacePut (val : option bytes) (rv : N) (k : nat) (a : nat).
+| TRacePut (val : option bytes) (rv : N) (k : nat) (a : nat)
                                                       (* ... the commit of its CAS / put-if-absent against the value read *)
+| TReadGet (rev : N)                                  (* a read thread before its check *)
+| TReadScan (rev : N).                                (* a read thread past its check, before its iterators *)
 
 Definition tphase (t : tstate) : cphase :=
-  match t with TSetGet _ _ => PhSetGet | TSetCommit _ _ _ => PhSetCommit | TRaceGet _ _ _ => PhRaceGet | TRacePut _ _ _ _ => PhRacePut end.
+  match t with TSetGet _ _ => PhSetGet | TSetCommit _ _ _ => PhSetCommit | TRaceGet _ _ _ => PhRaceGet | TRacePut _ _ _ _ => PhRacePut
+  | TReadGet _ => PhReadCheck | TReadScan _ => PhReadScan end.
 
 Definition trev (t : tstate) : N :=
-  match t with TSetGet rv _ | TSetCommit _ rv _ | TRaceGet rv _ _ | TRacePut _ rv _ _ => rv end.
+  match t with TSetGet rv _ | TSetCommit _ rv _ | TRaceGet rv _ _ | TRacePut _ rv _ _ => rv
+  | TReadGet _ | TReadScan _ => 0 (* the compaction revision of the thread: a read thread has none *) end.
 
 Inductive tnext := TGo (t : tstate) | TEnd (res : cres).
 
@@ -192,6 +203,7 @@ Definition tstep (rec : option bytes) (t : tstate) : option bytes * tnext :=
       if ok then (Some (be64 rv), after_range rv k)
       else if Nat.leb race_attempts a then (rec, after_range rv k)            (* gives up: this range is not scanned *)
       else (rec, TGo (TRaceGet rv k (S a)))                                   (* lost compare: re-read, re-compare *)
+  | TReadGet _ | TReadScan _ => (rec, TGo t)                                  (* read threads are advanced by their own labels *)
   end.
 
 Record xstate := mkX { x_c : cstate; x_thr : list (N * tstate) }.
@@ -216,6 +228,24 @@ Definition xstep (s : xstate) (op : cop) : xstate * cobs :=
           | TEnd res => (mkX c' (drop_thr i (x_thr s)), OCompact (trev t) res)
           end
       | None => (s, OWrite)
+      end
+  | CRSpawn i rev => (mkX (x_c s) (drop_thr i (x_thr s) ++ [(i, TReadGet rev)]), OWrite)
+  | CReadCheck i _ =>
+      match find_thr i (x_thr s) with
+      | Some (TReadGet rev) =>
+          match race_read (c_rec (x_c s)) rev with
+          | RData => (mkX (x_c s) (drop_thr i (x_thr s) ++ [(i, TReadScan rev)]), OWrite)
+          | r => (mkX (x_c s) (drop_thr i (x_thr s)), ORead r)
+          end
+      | _ => (s, OWrite)
+      end
+  | CReadScan i _ =>
+      match find_thr i (x_thr s) with
+      | Some (TReadScan rev) =>
+          (* the scan is not preceded or followed by another look at the record: it answers with what its iterators,
+             opened now, find (finding C08-F2) *)
+          (mkX (x_c s) (drop_thr i (x_thr s)), ORead RData)
+      | _ => (s, OWrite)
       end
   | _ => let '(c', o) := cstep (x_c s) op in (mkX c' (x_thr s), o)
   end.
